@@ -278,7 +278,7 @@ def offsets_prov(R, rep):
 
 
 def same_day_weights(R, rep):
-    """R4: in the ledger's same-day consumption the average cost is Σ(w·unit cost) ÷ Σ(w) with ONE weight w per lot, and
+    """R5 (each share leaves once): the debit/claim pairing of C02-R3 — leg quantity = debit of remaining = debit/claim of the matched acquisition, claims accumulated per acquisition index. R4: in the ledger's same-day consumption the average cost is Σ(w·unit cost) ÷ Σ(w) with ONE weight w per lot, and
     that weight is the lot's availability (what can actually be consumed) — so cost attributed = cost of shares debited"""
     F = R.F
     sd = R.leg("SameDay")[0]
@@ -344,6 +344,15 @@ def same_day_weights(R, rep):
 
 def run(ctx, rep):
     R = Roles(ctx.F)
+    # cost is conserved only if every share leaves the books exactly once: what a leg records is what it debits, and a
+    # 30-day claim is ACCUMULATED on the acquisition it was matched to (shared with C02-R3) — a claim that overwrites an
+    # earlier one lets the same shares enter the pool too, and their cost is deducted twice
+    import rules.c02 as c02
+    from core import Report
+    r2 = Report("tmp")
+    c02.pairing(R, r2)
+    for o in r2.obligations:
+        rep.ob("R5", o["instance"], o["ok"], o["detail"], o["site"], key="R5:" + o["instance"])
     pair_costs(R, rep)
     same_day_weights(R, rep)
     sibling_unit_cost(R, rep)
